@@ -68,7 +68,7 @@ WHAT_UPPER = ("[grid h=[1,1]^3, origin 0; dipole (0.5,2,0.5)->(1.5,2,0.5): vecto
               "cell (min_max_ind returns n, the loop is range(n, n)); all three components are then 0/0 = NaN "
               "after the 'Normalizing Source' warning; the same segment on the FIRST node is handled correctly")
 
-HEADER = "From Coq Require Import Qabs.\n" + K.CASE_HEADER + """From V Require Import Model.Source.
+HEADER = "From Coq Require Import Qabs Qround.\n" + K.CASE_HEADER + """From V Require Import Model.Source.
 Definition res_head (r : SrcRes Q) : list Z :=
   match r with
   | SErr c => [c]
@@ -82,6 +82,10 @@ Definition lookup1 (tab : list (Q * Q)) (a : Q) : Q :=
 Definition lookup2 (tab : list (Q * Q * Q)) (a b : Q) : Q :=
   match find (fun kv => near a (fst (fst kv)) && near b (snd (fst kv)))%bool tab with
   | Some kv => snd kv | None => (-777 # 1)%Q end.
+(* execution aid only: snap a model point to the 2^-40 lattice (identity on the dyadic inputs;
+   keeps the rationals of oracle-derived loop points small) *)
+Definition qsnap (q : Q) : Q := Qred (Qmake (Qfloor (q * (1099511627776 # 1))%Q) 1099511627776).
+Definition psnap (p : P3 Q) : P3 Q := mkP3 (qsnap (px p)) (qsnap (py p)) (qsnap (pz p)).
 Definition out_p (p : P3 Q) : list (Z * Z) := [out_q (px p); out_q (py p); out_q (pz p)].
 Definition out_sc (o : option (Q * Q)) : (Z * Z) * (Z * Z) :=
   match o with Some c => out_c c | None => ((-999, 1), (-999, 1)) end.
@@ -295,7 +299,7 @@ def fshape(shape, c):
 
 def coq_dipole_case(k, g, pts, clamp):
     L = [f"Definition G{k} := {coq_grid(g)}.",
-         f"Definition R{k} := dipole_vector Qle_bool {V.coq_bool(clamp)} G{k} "
+         f"Definition R{k} := Eval vm_compute in dipole_vector Qle_bool {V.coq_bool(clamp)} G{k} "
          f"[{'; '.join(coq_p3(p) for p in pts)}].",
          f"Eval vm_compute in res_head R{k}."]
     for c in range(3):
@@ -576,7 +580,7 @@ def coq_gsf_case(k, g, src, freq, clamp):
                      f"dump3 {scale} {s[0]} {s[1]} {s[2]} ({sel}) end.")
     else:
         pts = src['loop'] if src['type'] == 'mag' else src['pts']
-        L.append(f"Definition R{k} := dipole_vector Qle_bool {V.coq_bool(clamp)} G{k} "
+        L.append(f"Definition R{k} := Eval vm_compute in dipole_vector Qle_bool {V.coq_bool(clamp)} G{k} "
                  f"[{'; '.join(coq_p3(p) for p in pts)}].")
         for c in range(3):
             s = fshape(g['shape'], c)
@@ -664,6 +668,11 @@ def corr_gsf(ctx, n, dis, hist, samples, clamp):
             mvs = [[complex(float(a), float(b_)) for a, b_ in vals[comp]] for comp in range(3)]
             scale = max(max(float(np.max(np.abs(a))) if a.size else 0.0 for a in impl['f']),
                         max([abs(x) for m_ in mvs for x in m_] + [0.0]), 1e-300)
+            # floor: entries of single segments (a wire that returns on itself cancels to ~1e-22)
+            spts = src.get('loop') or src.get('pts')
+            seg = max([abs(b_ - a) for p_, q_ in zip(spts[:-1], spts[1:]) for a, b_ in zip(p_, q_)]
+                      + [0.05]) if spts else 1.0
+            scale = max(scale, abs(scale_factor(src['strength'], freq)) * seg * 0.05)
             if c['grid'].get('large'):
                 scale *= 1000.0         # coordinates ~1e6: entries carry ~1e-9 absolute rounding
             for comp in range(3):
@@ -879,6 +888,308 @@ def corr_conv(ctx, n, dis, hist, samples):
     return len(cases), len(nontriv)
 
 
+# ------------------------------------- part 5: input forms of get_source_field
+FORM_KINDS = ['m_point', 'e_point', 'm_pair', 'e_pair', 'wire', 'm_point', 'm_flat', 'e_flat',
+              'e_point', 'm_point', 'wire', 'm_pair']
+REAL_STRENGTHS = [2.5, -3.0, 7, 0.25, -1.5, 4]
+
+
+def gen_form_case(rng, kind, large=False):
+    """One source, to be requested through every documented input form."""
+    while True:     # loops / point-format dipoles need room around their centre
+        g = gen_grid(rng, True, large)
+        nd = g['nodes']
+        m = min(1.0, min(n[-1] - n[0] for n in nd) / 4)
+        if kind in ('wire', 'e_pair', 'e_flat') or m >= 0.75:
+            break
+
+    def centre(mm):
+        return [nd[d][0] + mm + rng.randint(0, max(0, int((nd[d][-1] - nd[d][0] - 2 * mm) * 16))) / 16
+                for d in range(3)]
+    c = {'kind': kind, 'grid': g, 'electric': kind[0] != 'm'}
+    if kind == 'wire':
+        c['pts'] = gen_points(rng, g, rng.choice(['wire', 'cable']), allow_upper=False)
+        c['electric'] = rng.random() < 0.5          # ignored by the code for (n,3) input
+        c['length'] = rng.choice([1.0, 2.0, 0.5])   # ignored
+    elif kind.endswith('point'):
+        if kind == 'm_point':
+            hd = rng.choice([h_ for h_ in (0.25, 0.5, 0.75, 1.0) if h_ <= m] or [m])
+            c['length'] = 2 * hd * hd               # loop area; never the default 1.0
+            c['coo'] = centre(hd)
+        else:
+            c['length'] = rng.choice([l_ for l_ in (0.5, 0.75, 1.5, 2.0) if l_ / 2 <= m] or [m])
+            c['coo'] = centre(c['length'] / 2)
+        c['coo'] += [gen_angle(rng, False), gen_angle(rng, True)]
+    else:
+        dmax = m if c['electric'] else min(m, m * m / 1.8)
+        k = max(1, int(dmax * 16))
+        while True:
+            dl = [rng.randint(-k, k) / 16 for _ in range(3)]
+            if rng.random() < 0.4:
+                dl[rng.randrange(3)] = 0.0
+            # a magnetic pair becomes a loop of half-diagonal sqrt(|p1-p0|/2): keep it inside
+            if any(dl) and (c['electric'] or (2 * math.sqrt(sum(x * x for x in dl)) / 2) ** 0.5 <= m):
+                break
+        ctr = centre(m)
+        c['p0'] = [a - b for a, b in zip(ctr, dl)]
+        c['p1'] = [a + b for a, b in zip(ctr, dl)]
+        c['length'] = rng.choice([2.0, 0.5, 3.0])   # must be ignored for electrode formats
+    u = rng.random()
+    if u < 0.4:
+        c['strength'] = complex(rng.randint(-12, 12) / 4 or 1.0, rng.randint(-12, 12) / 4 or 0.5)
+        c['freq'] = rng.randint(1, 64) / 8
+    else:
+        c['strength'] = rng.choice(REAL_STRENGTHS)
+        c['freq'] = rng.choice([rng.randint(1, 64) / 8, -rng.randint(1, 64) / 8, None])
+    return c
+
+
+def form_objects(c):
+    """[(name, is_instance, object, fmt)]: every documented way of passing the source."""
+    import emg3d
+    kw = {'strength': c['strength']}
+    out = []
+
+    def three(tag, seq, fmt, nested):
+        if nested:
+            return [(f'{tag}/ndarray', False, np.array(seq, float), fmt),
+                    (f'{tag}/list', False, [list(p) for p in seq], fmt),
+                    (f'{tag}/tuple', False, tuple(tuple(p) for p in seq), fmt)]
+        return [(f'{tag}/ndarray', False, np.array(seq, float), fmt),
+                (f'{tag}/list', False, list(seq), fmt), (f'{tag}/tuple', False, tuple(seq), fmt)]
+    if c['kind'] == 'wire':
+        out.append(('Tx(n,3)', True, emg3d.TxElectricWire(np.array(c['pts'], float), **kw), 'wire'))
+        out += three('(n,3)', c['pts'], 'wire', True)
+        return out
+    cls = emg3d.TxElectricDipole if c['electric'] else emg3d.TxMagneticDipole
+    if 'coo' in c:
+        out.append(('Tx(point5)', True, cls(tuple(c['coo']), length=c['length'], **kw), 'point'))
+        out += three('point5', c['coo'], 'point', False)
+        return out
+    p0, p1 = c['p0'], c['p1']
+    flat = (p0[0], p1[0], p0[1], p1[1], p0[2], p1[2])
+    out.append(('Tx(2,3)', True, cls(np.array([p0, p1], float), **kw), 'pair'))
+    out.append(('Tx(flat6)', True, cls(flat, **kw), 'flat'))
+    out += three('(2,3)', [p0, p1], 'pair', True)
+    out += three('flat6', flat, 'flat', False)
+    return out
+
+
+def run_forms_impl(c):
+    import emg3d
+    gr = mesh(c['grid'])
+    res = {}
+    for name, inst, obj, fmt in form_objects(c):
+        with warnings.catch_warnings(record=True) as w:
+            warnings.simplefilter('always')
+            try:
+                if inst:
+                    sf = emg3d.get_source_field(gr, obj, c['freq'])
+                else:
+                    sf = emg3d.get_source_field(gr, obj, c['freq'], strength=c['strength'],
+                                                length=c['length'], electric=c['electric'])
+                res[name] = {'f': [np.array(sf.fx), np.array(sf.fy), np.array(sf.fz)], 'fmt': fmt,
+                             'nwarn': sum('Normalizing' in str(x.message) for x in w)}
+            except Exception as e:      # noqa
+                res[name] = {'err': f"{type(e).__name__}: {e}"[:120], 'fmt': fmt}
+    return res
+
+
+def scale_factor(strength, freq):
+    import scipy.constants as sc
+    if freq is None:
+        return complex(strength)
+    if freq < 0:
+        return -complex(strength) * (-freq) * sc.mu_0
+    return -complex(strength) * 2j * np.pi * freq * sc.mu_0
+
+
+def disc_moment(g, f):
+    """1/2 sum r x j over the edges of a source field (position of an edge:
+    its centre; only the transverse coordinates matter)."""
+    nd = [np.array(n, float) for n in g['nodes']]
+    cc = [(n[1:] + n[:-1]) / 2 for n in nd]
+    fx, fy, fz = f
+    Y, Z = np.meshgrid(nd[1], nd[2], indexing='ij')
+    mx = np.array([0, np.sum(fx * Z[None]), -np.sum(fx * Y[None])])
+    X, Z = np.meshgrid(nd[0], nd[2], indexing='ij')
+    my = np.array([-np.sum(fy * Z[:, None, :]), 0, np.sum(fy * X[:, None, :])])
+    X, Y = np.meshgrid(nd[0], nd[1], indexing='ij')
+    mz = np.array([np.sum(fz * Y[:, :, None]), -np.sum(fz * X[:, :, None]), 0])
+    return (mx + my + mz) / 2
+
+
+def nominal_of(c):
+    """('sum' | 'moment', vector): what the property requires, from the inputs only."""
+    from scipy.special import cosdg, sindg
+    fac = scale_factor(c['strength'], c['freq'])
+    if c['kind'] == 'wire':
+        return 'sum', fac * (np.array(c['pts'][-1]) - np.array(c['pts'][0]))
+    if 'coo' in c:
+        az, el = c['coo'][3], c['coo'][4]
+        rot = np.array([cosdg(az) * cosdg(el), sindg(az) * cosdg(el), sindg(el)])
+        return ('sum' if c['electric'] else 'moment'), fac * c['length'] * rot
+    d = np.array(c['p1']) - np.array(c['p0'])
+    return ('sum' if c['electric'] else 'moment'), fac * d
+
+
+def check_forms_property(c, res=None):
+    """Independent oracle: every form gives the nominal moment and the same
+    field as the Tx-instance form.  Returns a hit dict or None."""
+    res = res or run_forms_impl(c)
+    what, want = nominal_of(c)
+    ref = None
+    wscale = max(1e-300, float(np.max(np.abs(want))), abs(scale_factor(c['strength'], c['freq'])) * 0.05)
+    base = {'kind': c['kind'], 'h': c['grid']['h'], 'origin': c['grid']['origin'],
+            'strength': str(c['strength']), 'length': c['length'], 'electric': c['electric'],
+            'frequency': c['freq'],
+            'source': c.get('coo') or c.get('pts') or [c['p0'], c['p1']]}
+    for name, r in res.items():
+        if 'err' in r:
+            return dict(base, signature='get_source_field rejects a documented input form',
+                        form=name, observed=r['err'])
+        if r['nwarn']:
+            return dict(base, signature='dipole vector needed the run-time re-normalisation', form=name)
+        f = r['f']
+        got = (np.array([a.sum() for a in f]) if what == 'sum' else disc_moment(c['grid'], f))
+        if what == 'moment' and max(abs(a.sum()) for a in f) > 1e-9 * wscale:
+            return dict(base, signature='magnetic dipole loop is not closed (non-zero total moment)',
+                        form=name, observed=[str(a.sum()) for a in f])
+        if not np.max(np.abs(got - want)) <= 1e-7 * wscale:
+            sig = ('source field component sums differ from strength*(-s mu0)*electrode vector'
+                   if what == 'sum' else
+                   'magnetic moment of the source field differs from strength*length*direction*(-s mu0)')
+            return dict(base, signature=sig, form=name, observed=[str(x) for x in got],
+                        required=[str(x) for x in want])
+        if ref is None:
+            ref = (name, f)
+        else:
+            tol = 1e-9 * max(max(float(np.max(np.abs(a))) if a.size else 0 for a in ref[1]),
+                             abs(scale_factor(c['strength'], c['freq'])) * 0.05) \
+                * (1000.0 if r['fmt'] != res[ref[0]]['fmt'] else 1.0)
+            err = max(float(np.max(np.abs(a - b))) if a.size else 0.0 for a, b in zip(f, ref[1]))
+            if not err <= tol:
+                return dict(base, signature='input forms of the same source give different source fields',
+                            form=name, reference_form=ref[0], observed_max_abs_difference=err)
+    return None
+
+
+def coq_form_case(k, c, fmt, clamp):
+    import scipy.constants as sc
+    g = c['grid']
+    rec = Rec()
+    mag = not c['electric']
+    if fmt == 'wire':
+        inp = "(PI_wire [" + '; '.join(coq_p3(p) for p in c['pts']) + "])"
+    elif fmt == 'point':
+        coo = c['coo']
+        rec.trig(coo[3]), rec.trig(coo[4])
+        if mag:
+            rec.loop(coo[3], coo[4], c['length'])
+        inp = f"(PI_dip (DPoint {coq_p3(coo[:3])} {V.q(coo[3])} {V.q(coo[4])}))"
+    else:
+        p0, p1 = c['p0'], c['p1']
+        if mag:
+            az, el, ln = rec.d2p(p0, p1)
+            rec.loop(az, el, ln)
+        inp = (f"(PI_dip (DPair {coq_p3(p0)} {coq_p3(p1)}))" if fmt == 'pair' else
+               f"(PI_dip (DFlat {V.q(p0[0])} {V.q(p1[0])} {V.q(p0[1])} {V.q(p1[1])} "
+               f"{V.q(p0[2])} {V.q(p1[2])}))")
+    if not rec.r['cos']:
+        rec.trig(0.0)
+    if not rec.r['sqrt']:
+        rec.r['sqrt'].append((Fr(0), 0.0))
+    if not rec.r['angle']:
+        rec.r['angle'].append((Fr(0), Fr(0), 0.0))
+    st = complex(c['strength'])
+    stc = isinstance(c['strength'], complex)
+    fq = 'None' if c['freq'] is None else f"(Some {V.q(c['freq'])})"
+    scale = (f"(fun v : Q => out_sc (source_scale Qle_bool {V.q(math.pi)} {V.q(sc.mu_0)} {fq} "
+             f"({V.q(st.real)}, {V.q(st.imag)}) {V.coq_bool(stc)} v))")
+    L = [f"Definition G{k} := {coq_grid(g)}.",
+         f"Definition P{k} := plain_points Qle_bool {conv_oracles(rec.r)} {V.coq_bool(c['electric'])} "
+         f"{inp} {V.q(c['length'])}.",
+         f"Definition R{k} := Eval vm_compute in match P{k} with Some pts => dipole_vector Qle_bool "
+         f"{V.coq_bool(clamp)} G{k} (map psnap pts) | None => SErr 7 end."]
+    for comp in range(3):
+        sh = fshape(g['shape'], comp)
+        L.append(f"Eval vm_compute in res_dump {scale} R{k} {comp} {sh[0]} {sh[1]} {sh[2]}.")
+    return '\n'.join(L)
+
+
+def case_formats(c):
+    return ['wire'] if c['kind'] == 'wire' else ['point'] if 'coo' in c else ['pair', 'flat']
+
+
+def corr_forms(ctx, n, dis, hist, samples, clamp):
+    rng = ctx.rng
+    cases = [gen_form_case(rng, FORM_KINDS[i % len(FORM_KINDS)], large=(i % 6 == 5 and
+                           FORM_KINDS[i % len(FORM_KINDS)] in ('wire', 'm_point')))
+             for i in range(n)]
+    jobs = [(i, fmt) for i, c in enumerate(cases) for fmt in case_formats(c)]
+    texts = []
+    for b, chunk in enumerate(batches(list(enumerate(jobs)), 6)):
+        texts.append((f"c10_fm_{b}", HEADER + '\n'.join(
+            coq_form_case(k, cases[i], fmt, clamp) for k, (i, fmt) in chunk) + '\n'))
+    res = V.coq_eval_many(texts)
+    model = {}
+    for b, chunk in enumerate(batches(list(enumerate(jobs)), 6)):
+        rc, out = res[f"c10_fm_{b}"]
+        if rc != 0:
+            dis.append({'what': 'Source model does not evaluate (input-form cases)', 'log': out[-1500:]})
+            continue
+        ans = V.eval_answers(out)
+        for j, (k, (i, fmt)) in enumerate(chunk):
+            model[(i, fmt)] = [[complex(float(a), float(b_)) for a, b_ in V.parse_cpairs(ans[3 * j + comp])]
+                               for comp in range(3)]
+    nforms, nontriv = 0, set()
+    for i, c in enumerate(cases):
+        impl = run_forms_impl(c)
+        brief = {'kind': 'forms/' + c['kind'], 'h': c['grid']['h'], 'origin': c['grid']['origin'],
+                 'source': c.get('coo') or c.get('pts') or [c['p0'], c['p1']],
+                 'strength': str(c['strength']), 'length': c['length'], 'electric': c['electric'],
+                 'frequency': c['freq']}
+        if len(samples) < 12 and i % 5 == 0:
+            samples.append(brief)
+        hit = check_forms_property(c, impl)
+        if hit:
+            dis.append({'what': 'input-form stream: ' + hit['signature'], 'case': brief,
+                        'form': hit.get('form'), 'impl': hit.get('observed'), 'model': hit.get('required')})
+        exact = c['electric'] and 'coo' not in c or c['kind'] == 'wire'
+        for name, r in impl.items():
+            nforms += 1
+            hk = f"forms/{'large/' if c['grid'].get('large') else ''}{c['kind']}/{name}"
+            hist[hk] = hist.get(hk, 0) + 1
+            mv = model.get((i, r['fmt']))
+            if mv is None or 'err' in r:
+                if 'err' in r:
+                    dis.append({'what': 'get_source_field rejects a documented input form',
+                                'case': brief, 'form': name, 'impl': r['err']})
+                continue
+            mscale = max([abs(x) for m_ in mv for x in m_]
+                         + [abs(scale_factor(c['strength'], c['freq'])) * 0.05])
+            rtol = (1e-9 if exact else 1e-6) * (1000.0 if c['grid'].get('large') else 1.0)
+            for comp in range(3):
+                iv = r['f'][comp].ravel()
+                bad = None
+                if len(iv) != len(mv[comp]):
+                    bad = f"size {len(iv)} vs {len(mv[comp])}"
+                else:
+                    for q in range(len(iv)):
+                        if not abs(complex(iv[q]) - mv[comp][q]) <= rtol * mscale:
+                            bad = f"flat index {q}: impl {iv[q]!r} model {mv[comp][q]!r}"
+                            break
+                if bad:
+                    dis.append({'what': 'get_source_field(coordinates + keywords) differs from the model '
+                                        '(plain_points -> dipole_vector -> source_scale)',
+                                'case': brief, 'form': name, 'component': 'xyz'[comp], 'detail': bad})
+                    break
+        nontriv.add((c['kind'], type(c['strength']).__name__,
+                     'none' if c['freq'] is None else 'laplace' if c['freq'] < 0 else 'freq',
+                     bool(c['grid'].get('large'))))
+    return nforms, len(nontriv)
+
+
 # --------------------------------------------------------------- correspondence
 def correspondence(ctx):
     clamp = impl_variant()
@@ -890,6 +1201,8 @@ def correspondence(ctx):
     n2, d2 = corr_point(ctx, 160 if t else 40, dis, hist, samples)
     n3, d3 = corr_gsf(ctx, 120 if t else 40, dis, hist, samples, clamp)
     n4, d4 = corr_conv(ctx, 300 if t else 75, dis, hist, samples)
+    n5, d5 = corr_forms(ctx, 72 if t else 24, dis, hist, samples, clamp)
+    n1, d1 = n1 + n5, d1 + d5
     return {
         'evaluations': n1 + n2 + n3 + n4,
         'distinct_nontrivial': d1 + d2 + d3 + d4,
@@ -903,7 +1216,13 @@ def correspondence(ctx):
                 "get_source_field: source type x frequency mode (f>0, f<0, None, 0) x strength type. "
                 "conversions: point_to_dipole, dipole_to_point, point_to_square_loop, Tx(Electric|Magnetic)"
                 "Dipole from the three coordinate formats incl. identical electrodes; oracle values "
-                "(cosdg, sindg, sqrt, angle) are taken from the implementation's primitives",
+                "(cosdg, sindg, sqrt, angle) are taken from the implementation's primitives. "
+                "input forms: every source (electric/magnetic dipole as point5 + length, (2,3), flat6; wire "
+                "(n,3)) is requested as Tx instance and as ndarray/list/tuple + strength/length/electric "
+                "keywords (non-default real and complex strength, length != 1); each form is compared with "
+                "the model (plain_points -> dipole_vector -> source_scale), with the Tx-instance form and "
+                "with the nominal moment (component sums / discrete magnetic moment 1/2 sum r x j); "
+                "evaluations count one per form",
         'samples': samples[:10],
         'traces_validated_against_impl': n1 + n2 + n3 + n4,
         'histogram': hist,
@@ -1103,6 +1422,15 @@ def search(ctx, broken):
                     hits.append(dict(h, h=g['h'], origin=g['origin'], points=loop,
                                      magnetic_dipole={'coordinates': coo, 'area': area}))
                     break
+        if i % 4 == 0:
+            # input forms: Tx instance vs coordinates + keywords, nominal moment of each
+            fc = gen_form_case(rng, FORM_KINDS[(i // 4) % len(FORM_KINDS)])
+            h = check_forms_property(fc)
+            counts['forms'] = counts.get('forms', 0) + 1
+            if h:
+                jc = {k_: (str(v_) if isinstance(v_, complex) else v_) for k_, v_ in fc.items()}
+                hits.append(dict(h, form_case=jc))
+                break
         if i % 3 == 0:
             coo = point(rng, g, [rng.choice(['generic', 'node', 'centre', 'first', 'last'])
                                  for _ in range(3)]) + [gen_angle(rng, False), gen_angle(rng, True)]
@@ -1136,6 +1464,11 @@ def replay(ctx, payload):
     fi = payload.get('failing_input')
     if not fi:
         return False
+    if 'form_case' in fi:
+        fc = dict(fi['form_case'])
+        if isinstance(fc['strength'], str):
+            fc['strength'] = complex(fc['strength'])
+        return check_forms_property(fc) is None
     if 'points' in fi and 'h' in fi:
         g = {'h': fi['h'], 'origin': fi['origin'], 'shape': [len(h) for h in fi['h']]}
         g['nodes'] = [[o + sum(h[:k]) for k in range(len(h) + 1)] for o, h in zip(fi['origin'], fi['h'])]
